@@ -101,8 +101,9 @@ def sparse_conversions_emptyside(E, shape, pos, order):
 
 
 @ob("C01", params=[dict(shape=(3,), R=1), dict(shape=(3,), R=2), dict(shape=(2, 3), R=1), dict(shape=(2, 3), R=2),
-                   dict(shape=(2, 2, 2), R=2), dict(shape=(2, 3, 2), R=2, _tier="thorough"),
-                   dict(shape=(2, 1, 2, 2), R=2, _tier="thorough")],
+                   dict(shape=(2, 2, 2), R=2), dict(shape=(2, 3, 4), R=2), dict(shape=(2, 2, 3, 2), R=2), dict(shape=(3, 2, 2), R=1),
+                   dict(shape=(2, 3, 2), R=2, _tier="thorough"), dict(shape=(2, 1, 2, 2), R=2, _tier="thorough"),
+                   dict(shape=(2, 2, 2, 2, 2), R=1, _tier="thorough"), dict(shape=(4, 3, 2), R=2, _tier="thorough")],
     bounds="Kruskal weights and factors symbolic")
 def kruskal_to_dense(E, shape, R):
     """ktensor.full/double/to_tenmat == sum_r w_r prod_n U_n[i_n,r]"""
@@ -119,7 +120,8 @@ def kruskal_to_dense(E, shape, R):
 
 
 @ob("C01", params=[dict(shape=(2, 3), core=(2, 2)), dict(shape=(2, 3), core=(1, 2)), dict(shape=(2, 2, 2), core=(2, 1, 2)),
-                   dict(shape=(3,), core=(2,)), dict(shape=(2, 3, 2), core=(2, 2, 2), _tier="thorough")],
+                   dict(shape=(3,), core=(2,)), dict(shape=(2, 3, 4), core=(2, 1, 2)), dict(shape=(2, 3, 2), core=(2, 2, 2), _tier="thorough"),
+                   dict(shape=(2, 2, 3, 2), core=(1, 2, 1, 2), _tier="thorough")],
     bounds="Tucker core and factors symbolic")
 def tucker_to_dense(E, shape, core):
     """ttensor.full/double == core x_n U_n"""
